@@ -45,6 +45,31 @@ def _post_sink_final(args, kw, res, exc, snap):
     _sink_log.setdefault(str(sink._dst), {"calls": [], "final": []})["final"].append([p["PartNumber"] for p in parts])
 
 
+class _BodyS3:
+    """Fake S3 client (one ordered log) that also keeps the uploaded bodies so the object can be assembled and read back."""
+
+    def __init__(self):
+        from ..fakes import FakeS3
+
+        self._f = FakeS3()
+        self.log = self._f.log
+        self.bodies = {}
+
+    def create_multipart_upload(self, **kw):
+        return self._f.create_multipart_upload(**kw)
+
+    def upload_part(self, **kw):
+        self.bodies[int(kw["PartNumber"])] = bytes(kw["Body"])
+        return self._f.upload_part(**kw)
+
+    def complete_multipart_upload(self, **kw):
+        self.completed = [p["PartNumber"] for p in kw["MultipartUpload"]["Parts"]]
+        return self._f.complete_multipart_upload(**kw)
+
+    def assembled(self) -> bytes:
+        return b"".join(self.bodies[i] for i in getattr(self, "completed", sorted(self.bodies)))
+
+
 def install(mon: Monitor) -> None:
     global _mon
     _mon = mon
@@ -98,7 +123,9 @@ def make_config(rng: random.Random):
     cfg = dict(ny=ny, nx=nx, layout=layout, ns=ns, dtype=dtype, chunks=[cy, cx], band_chunk=band_chunk, nodata=nodata, blocksize=bs, compression=comp,
                predictor=rng.choice([None, None, True, False]) if comp != "none" else rng.choice([None, False]), spill_sz=rng.choice([0, 1 << 10, 1 << 16, None]), writes_per_chunk=rng.choice([None, 1, 2, 3]),
                stats=rng.choice([True, False, True]), bigtiff=rng.choice([True, True, False]), scheduler=rng.choice(["sync", "sync", "threads"]), workers=rng.choice([2, 4, 8]),
-               order_seed=rng.randint(0, 10**6), data_seed=rng.randint(0, 10**6), crs=rng.choice(["EPSG:3857", "EPSG:4326", "EPSG:32633"]))
+               order_seed=rng.randint(0, 10**6), data_seed=rng.randint(0, 10**6), crs=rng.choice(["EPSG:3857", "EPSG:4326", "EPSG:32633"]), dest=rng.choice(["file", "file", "file", "s3"]))
+    if cfg["dest"] == "s3" and cfg["spill_sz"] == 0:
+        cfg["spill_sz"] = 1 << 10  # for the S3 writer spill_sz=0 means "assemble in memory, do not upload" (returns the chunk)
     return cfg
 
 
@@ -144,11 +171,30 @@ def run_config(mon: Monitor, cfg, workdir: str) -> None:
         kw["writes_per_chunk"] = cfg["writes_per_chunk"]
     fn = os.path.join(workdir, f"c05_{cfg['data_seed']}_{cfg['order_seed']}.tif")
     _sink_log.pop(fn, None)
+    to_s3 = cfg.get("dest") == "s3"
+    s3 = _BodyS3() if to_s3 else None
     order_sig = None
     wit = lambda extra=None: {**cfg, **(extra or {})}
 
     def go():
         nonlocal order_sig
+        if to_s3:
+            from odc.geo.cog import _s3
+
+            saved = (_s3.MultiPartUpload.s3_client, _s3._dask_client)
+            _s3.MultiPartUpload.s3_client = lambda self: s3
+            _s3._dask_client = lambda: None
+            try:
+                fut = save_cog_with_dask(xx, f"s3://bkt/{os.path.basename(fn)}", **kw)
+                with random_order(cfg["order_seed"]) as sig:
+                    skw = {"num_workers": cfg["workers"]} if cfg["scheduler"] == "threads" else {}
+                    out = fut.compute(scheduler=cfg["scheduler"], **skw)
+                    order_sig = sig()
+            finally:
+                _s3.MultiPartUpload.s3_client, _s3._dask_client = saved
+            with open(fn, "wb") as f:
+                f.write(s3.assembled())
+            return out
         fut = save_cog_with_dask(xx, fn, **kw)
         with random_order(cfg["order_seed"]) as sig:
             skw = {"num_workers": cfg["workers"]} if cfg["scheduler"] == "threads" else {}
@@ -252,7 +298,16 @@ def run_config(mon: Monitor, cfg, workdir: str) -> None:
         mon.check(ok_nn, "overview-values", lambda: wit({}), key="overview-not-from-parent-block", cls=cls)
         # ---- part-writer history at the sink boundary
         log = _sink_log.get(fn)
-        if log is None or not log["calls"]:
+        if to_s3:
+            creates = [e for e in s3.log if e[0] == "create"]
+            ups = [e for e in s3.log if e[0] == "upload_part"]
+            comps = [e for e in s3.log if e[0] == "complete"]
+            ids = [e[4] for e in ups]
+            ok_hist = (len(creates) == 1 and len(comps) == 1 and all(e[3] == creates[0][3] for e in ups + comps) and len(set(ids)) == len(ids) and comps[0][4] == sorted(ids)
+                       and all(1 <= i <= 10_000 for i in ids) and all(e[5] >= 5 * (1 << 20) for e in sorted(ups, key=lambda e: e[4])[:-1]) and sum(e[5] for e in ups) == fsize)
+            mon.check(ok_hist, "s3-history", lambda: wit({"log": [e[:5] + (e[5:] if e[0] == "upload_part" else ()) for e in s3.log][:12], "file_size": fsize}), key="s3-history", cls=f"parts={min(len(ids), 4)}")
+            mon.obs["s3_parts_written"] += len(ids)
+        elif log is None or not log["calls"]:
             mon.inconclusive("sink history not observed")
         else:
             ids = [p for p, _ in log["calls"]]
@@ -275,6 +330,7 @@ def run_config(mon: Monitor, cfg, workdir: str) -> None:
 _orders = set()
 
 PINNED = [
+    dict(ny=129, nx=100, layout="SYX", ns=2, dtype="int16", chunks=[32, 32], band_chunk=1, nodata=-9999, blocksize=[32, 16], compression="zstd", predictor=None, spill_sz=None, writes_per_chunk=None, stats=True, bigtiff=True, scheduler="threads", workers=4, order_seed=8, data_seed=8, crs="EPSG:3857", dest="s3"),
     # K4 (known finding): band-first cube, ns == ny == nx: both layouts match the GeoBox and the shape heuristic picks band-last although the DataArray dims say otherwise
     dict(ny=2, nx=2, layout="SYX", ns=2, dtype="float64", chunks=[200, 200], band_chunk=2, nodata=-9999, blocksize=[16], compression="lzw", predictor=True, spill_sz=0, writes_per_chunk=None, stats=True, bigtiff=True, scheduler="sync", workers=8, order_seed=765388, data_seed=116416, crs="EPSG:3857"),
     # D20: single row / column and 2x100 with [32,16]; D21: band-first 3-4 px wide; repartition (>20 tiles) and concat (>4 bags) paths
@@ -312,7 +368,7 @@ def run(mon: Monitor, tier: str, seed: int, shard: int, nshards: int) -> None:
         mon.case = None
         mon.obs["distinct_orders_sync"] = len({o for s, o in _orders if s == "sync"})
         mon.obs["distinct_orders_threads"] = len({o for s, o in _orders if s == "threads"})
-        for pt, n in [("gdal-readback", 60), ("tiff-structure", 60), ("tiff-bytes", 60), ("tiff-order", 60), ("tiff-decode", 60), ("overview-values", 60), ("sink-history", 60),
+        for pt, n in [("gdal-readback", 60), ("tiff-structure", 60), ("tiff-bytes", 60), ("tiff-order", 60), ("tiff-decode", 60), ("overview-values", 60), ("sink-history", 40), ("s3-history", 8),
                       ("gdal-readback|YX|thin", 2), ("gdal-readback|SYX|regular", 2), ("gdal-readback|YXS|regular", 2)]:
             mon.floor(pt, n)
     finally:
